@@ -13,6 +13,8 @@ class Gen:
         self.rng, self.nesting, self.unrelated, self.elsif, self.chains = rng, nesting, unrelated, elsif, chains
         self.lines = []
         self.expect = {}       # row -> rendered type
+        self.known = {}        # row -> predicate of the known finding that covers a deviation on that row
+        self.taint = None      # set while generating the inside of a branch a known finding affects: everything nested inherits it
         self.vars = {}         # union variables: name -> list of classes (declaration order)
         self.n = 0
         self.shapes = {}
@@ -42,7 +44,7 @@ class Gen:
     def atom(self, env):
         """(text, var, admitted classes, rejected classes)"""
         rng = self.rng
-        v = rng.choice(sorted(env))
+        v = rng.choice(sorted(k for k, c in env.items() if len(c) > 1))
         cs = env[v]
         kind = rng.choice(["nil", "notnil", "isa", "isa"])
         if kind in ("nil", "notnil") and "NilClass" in cs:
@@ -71,10 +73,9 @@ class Gen:
                 self.n += 1
                 self.emit("f%d = [1, 2].length" % self.n, ind)
             elif r < 0.8 and self.nesting and depth < 2:
-                # an unrelated conditional on another variable (or a literal condition)
-                others = {k: v for k, v in self.vars.items() if k not in env} or None
-                if others and rng.random() < 0.7:
-                    self.conditional(ind, others, depth + 1)
+                # another conditional inside the branch (on a variable that still has several classes here, or a literal condition)
+                if any(len(c) > 1 for c in env.values()) and rng.random() < 0.7:
+                    self.conditional(ind, env, depth + 1)
                 else:
                     self.emit("if true", ind)
                     self.n += 1
@@ -85,23 +86,26 @@ class Gen:
                 self.emit("dbtp 1", ind)
                 self.expect[len(self.lines)] = "Integer"
 
-    def probe(self, ind, env):
+    def probe(self, ind, env, known=None):
         for v in sorted(env):
             if env[v]:
                 r = self.emit("dbtp %s" % v, ind)
                 self.expect[r] = render(env[v])
+                if known or self.taint:
+                    self.known[r] = known or self.taint
 
     def conditional(self, ind, env, depth=0):
         """env: the variables this conditional may test, with their current classes"""
         rng = self.rng
         kw = rng.choice(["if", "if", "unless"])
         atoms = [self.atom(env)]
-        if self.chains and rng.random() < 0.3 and len(env) > 1:
-            a2 = self.atom({k: v for k, v in env.items() if k != atoms[0][1]})
-            atoms.append(a2)
+        rest = {k: v for k, v in env.items() if k != atoms[0][1] and len(v) > 1}
+        if self.chains and rng.random() < 0.3 and rest:
+            atoms.append(self.atom(rest))
         cond = " && ".join(a[0] for a in atoms)
         self.emit("%s %s" % (kw, cond), ind)
         self.count(kw + ("-chain" if len(atoms) > 1 else ""))
+        k29 = False
         then_env = dict(env)
         else_env = dict(env)
         for _, v, yes, no in atoms:
@@ -114,29 +118,38 @@ class Gen:
             if len(atoms) > 1:
                 then_env = dict(env)      # unless (A && B): the body admits everything
         body_env = then_env
+        chain_neg = "and-chain-negative-branch" if len(atoms) > 1 else None
+        outer_taint = self.taint
+        if kw == "unless" and chain_neg:
+            self.taint = self.taint or chain_neg
         if self.unrelated:
             self.filler(ind + 1, body_env, depth)
-        self.probe(ind + 1, body_env)
+        self.probe(ind + 1, body_env, chain_neg if kw == "unless" else None)
         if self.nesting and depth < 2 and rng.random() < 0.35:
-            sub = {k: v for k, v in body_env.items() if len(v) > 1}
-            if sub:
-                self.conditional(ind + 1, sub, depth + 1)
-                self.probe(ind + 1, body_env)          # undone after the inner conditional
+            if any(len(v) > 1 for v in body_env.values()):
+                self.conditional(ind + 1, body_env, depth + 1)
+                self.probe(ind + 1, body_env, chain_neg if kw == "unless" else None)          # undone after the inner conditional
                 self.count("nested")
+        self.taint = outer_taint
         if kw == "if" and self.elsif and len(atoms) == 1 and rng.random() < 0.3 and any(len(v) > 1 for v in else_env.values()):
-            a2 = self.atom({k: v for k, v in else_env.items() if len(v) > 1})
+            a2 = self.atom(else_env)
             self.emit("elsif %s" % a2[0], ind)
             self.count("elsif")
             e2 = dict(else_env)
             e2[a2[1]] = [c for c in e2[a2[1]] if c in a2[2]]
-            self.probe(ind + 1, e2)
+            negated = a2[0].startswith("!")
+            self.probe(ind + 1, e2, "elsif-negated-after-narrowing" if negated and else_env[a2[1]] != env[a2[1]] else None)
+            k29 = negated
             else_env = dict(else_env)
             else_env[a2[1]] = [c for c in else_env[a2[1]] if c in a2[3]]
         if rng.random() < 0.7:
             self.emit("else", ind)
+            else_known = (chain_neg if kw == "if" else None) or ("elsif-negated-after-narrowing" if k29 else None)
+            self.taint = self.taint or else_known
             if self.unrelated:
                 self.filler(ind + 1, else_env, depth)
-            self.probe(ind + 1, else_env)
+            self.probe(ind + 1, else_env, else_known)
+            self.taint = outer_taint
         self.emit("end", ind)
         self.probe(ind, env)                  # the pre-conditional types are back
 
@@ -147,5 +160,5 @@ class Gen:
             r = self.emit("dbtp %s" % v, 0)
             self.expect[r] = render(self.vars[v])
         for _ in range(self.rng.randint(1, 3)):
-            self.conditional(0, dict(self.vars))
+            self.conditional(0, {k: list(v) for k, v in self.vars.items()})
         return "\n".join(self.lines) + "\n"
